@@ -93,6 +93,7 @@ DEFAULT_PROFILE = {
     "full_loops": 0,           # percent: DO bounds = full extent of an array
     "triangular": 0,           # weight: a loop bound is an outer loop variable
     "index_alias_calls": 0,    # percent: call passes k and a(..k..) together
+    "ensure": None,            # intrinsic name that must occur (s_ensure)
 }
 
 
@@ -608,12 +609,13 @@ class Gen:
             return f"{fun.name}@U@({lhs})"
         return f"(-{lhs})"
 
-    def reduction(self):
+    def reduction(self, kind=None, arr=None):
         """Scalar-valued transformational intrinsic on an array/section."""
-        arr = self.pick(self.arrays("real"))
+        arr = arr or self.pick(self.arrays("real"))
         self.features.add("array_intrinsic")
-        kind = self.weighted([(4, "sum"), (2, "maxval"), (2, "minval"),
-                              (1, "product"), (2, "dot"), (1, "size")])
+        kind = kind or self.weighted([(4, "sum"), (2, "maxval"),
+                                      (2, "minval"), (1, "product"),
+                                      (2, "dot"), (1, "size")])
         if kind == "size":
             dim = self.int(1, arr.rank)
             return f"real(size({arr.name}, {dim}))"
@@ -919,6 +921,47 @@ class Gen:
         if typ == "int":
             return [f"{var.name} = {self.int_expr(2)[0]}"]
         return [f"{var.name} = {self.log_expr(1)}"]
+
+    def s_ensure(self, name):
+        """A statement that certainly contains intrinsic `name` (profile
+        option `ensure`), in the forms the lowering transformations meet:
+        scalar or array-element target, intrinsic alone or inside an
+        expression, argument possibly the target's own array."""
+        reals = self.arrays("real")
+        if not reals:
+            raise NoFit()
+        arr = self.pick(reals)
+        if name in ("sum", "product", "minval", "maxval", "dot"):
+            call = self.reduction(kind=name, arr=arr)
+        elif name == "abs":
+            call = f"abs({self.real_expr(1)})"
+        elif name == "sign":
+            call = (f"sign({self.real_expr(1)}, "
+                    f"{self.pick(['1.0', '(-1.0)', '2.5', '(-0.5)'])})")
+        elif name in ("min", "max"):
+            args = [self.real_expr(1) for _ in range(self.int(2, 4))]
+            call = f"{name}(" + ", ".join(args) + ")"
+        elif name == "matmul":
+            return self.s_matmul()
+        else:
+            raise NoFit()
+        form = self.int(0, 3)
+        if form == 0:
+            rhs = call
+        elif form == 1:
+            rhs = f"({self.real_atom()} + {call})"
+        elif form == 2:
+            rhs = f"({call} * {self.pick(['2.0', '0.5', '(-1.0)'])})"
+        else:
+            rhs = f"({call} - {self.real_atom()})"
+        warrs = self.arrays("real", writable=True)
+        if warrs and self.flip():
+            # prefer an element of the array the intrinsic reads
+            tgt = arr if arr in warrs and self.flip(2, 3) else \
+                self.pick(warrs)
+            return [f"{self.elem(tgt)} = {rhs}"]
+        scal = self.scalars("real", writable=True)
+        return [f"{self.pick(scal).name} = {rhs}"]
 
     def s_dep_pair(self):
         """arr(idx1) = arr(idx2) <op> expr with both subscripts from the
@@ -1446,9 +1489,15 @@ def programs(draw, profile=None):
     # locals are always defined before use
     body = ["t = 0.0", "it = 0"]
     nst = gen.int(*prof["nstmts"])
-    for _ in range(nst):
-        if gen.budget <= 0:
-            break
+    ensure_at = gen.int(0, nst) if prof.get("ensure") else -1
+    for num in range(nst + 1):
+        if num == ensure_at:
+            try:
+                body.extend(gen.s_ensure(prof["ensure"]))
+            except NoFit:
+                pass
+        if num == nst or gen.budget <= 0:
+            continue
         body.extend(gen.stmt())
     # while-loop counters are initialised up front (their loop may sit in
     # a branch that is not taken while later statements read them)
